@@ -28,6 +28,7 @@
 #include <sys/types.h>
 #include <sys/wait.h>
 #include <sys/time.h>
+#include <sys/resource.h>
 #include <unistd.h>
 
 #if defined (__SANITIZE_ADDRESS__)
@@ -989,6 +990,14 @@ main (int argc, char **argv)
 	  close (fds[0]);
 	  FILE *out = fdopen (fds[1], "w");
 	  std::cerr.rdbuf (g_cerr.rdbuf ());
+#if !defined (__SANITIZE_ADDRESS__)
+	  {
+	    // a case that goes astray must not take the machine's memory with it (the
+	    // sanitizer builds reserve address space far beyond this and keep their own limits)
+	    struct rlimit rl = {(rlim_t) 3 << 30, (rlim_t) 3 << 30};
+	    setrlimit (RLIMIT_AS, &rl);
+	  }
+#endif
 	  // bison's yyerror writes to C stderr; silence it.
 	  if (!freopen ("/dev/null", "w", stderr))
 	    {}
